@@ -71,14 +71,16 @@ theorem numReads_run (sd : Bool) (base : Nat) (s : St) (i : Nat) (opn : List Nat
 
 /-! ### Security state -/
 
-def Sec (s : St) : Prop := s.secure = true ∧ s.connTls = true ∧ s.sessTls = true
+/-- `handle` is given the decrypted connection and the session holds it (the `secure` flag itself is
+re-derived from the connection on every request, whatever a modifier did to it). -/
+def Sec (s : St) : Prop := s.connTls = true ∧ s.sessTls = true
 def Plain (s : St) : Prop := s.secure = false ∧ s.connTls = false ∧ s.sessTls = false
 
 def isTlsMitm : Item → Bool | .connectMitm true _ _ => true | _ => false
 
 theorem again_sec (sd : Bool) (s s' : St) (i c : Nat) (it : Item) (hs : Sec s)
     (h : (handleItem sd s i c it).2 = .again s') : Sec s' := by
-  obtain ⟨h1, h2, h3⟩ := hs
+  obtain ⟨h2, h3⟩ := hs
   revert h
   item_cases it then
     (first
@@ -284,5 +286,42 @@ theorem tidAt_none (i t : Nat) (items : List Item) (k : Nat)
       refine hno m (by omega) hm2 x ?_
       have : m - i = (m - (i + 1)) + 1 := by omega
       rw [this]; simpa using hx
+
+end Martian.Proxy
+
+namespace Martian.Proxy
+
+/-! ### Session storage -/
+
+/-- One step of the loop keeps every value stored so far and adds the one of this request - also
+across a TLS upgrade (`setConn`), a failed handshake and a modifier's `MarkInsecure`. -/
+theorem again_stored (sd : Bool) (s s' : St) (i c : Nat) (it : Item)
+    (h : (handleItem sd s i c it).2 = .again s') : s'.stored = s.stored + 1 := by
+  revert h
+  item_cases it then
+    (first
+      | (intro h; subst h; simp)
+      | (intro h; split at h <;> first | contradiction | (injection h with h; subst h; simp))
+      | skip)
+
+theorem at?_stored (sd : Bool) (base : Nat) (s : St) (i : Nat) (items : List Item) (k : Nat) (s' : St) (it : Item)
+    (h : at? sd base s i items k = some (s', it)) : s'.stored = s.stored + (k - i) := by
+  induction items generalizing s i with
+  | nil => simp [at?] at h
+  | cons x rest ih =>
+    simp only [at?] at h
+    by_cases hk : k = i
+    · simp only [hk, if_true, Option.some.injEq, Prod.mk.injEq] at h
+      obtain ⟨rfl, _⟩ := h
+      simp [hk]
+    · simp only [hk, if_false] at h
+      split at h
+      · rename_i s2 heq
+        have hik : i < k := by
+          rcases Nat.lt_or_ge i k with hc | hc
+          · exact hc
+          · rw [at?_lt sd base s2 (i + 1) rest k (by omega)] at h; simp at h
+        rw [ih s2 (i + 1) h, again_stored sd s s2 i _ x heq]; omega
+      · simp at h
 
 end Martian.Proxy
